@@ -41,7 +41,16 @@
 (*    at thread exit), the end of the loop is observed at once (H_LoopEnd; driver: the destructor of  *)
 (*    a guard owned by every task that never completes sends through its handle and records the       *)
 (*    result);                                                                                         *)
-(*  - several Systems hosted one after another by ONE OS thread (driver: "rounds"): NOT modelled.    *)
+(*  - a backlog in front of an ARBITER (its thread is blocked inside a task, or its loop has not been *)
+(*    polled yet, while commands pile up in its channel): the model lets ArbDequeue lag arbitrarily   *)
+(*    behind.  Variant DequeueBatch = K > 0 (design 0): the loop handles at most K commands per poll  *)
+(*    and then sleeps without a wake-up; the driver's bounded wait for the queued commands to start   *)
+(*    then expires (AwaitTimeout, H_AwaitEnd, C10_AcceptedStarts).  Variant QueueCap = K > 0 (design  *)
+(*    0 = unbounded): a push into a channel that holds K commands is refused - the sender is told     *)
+(*    false, the controller's Stop is lost (C09_AllRegisteredStop).  Driver: flavours "c10-flood"     *)
+(*    (40-100 commands) and "c09-backlog" (~1100 commands, then the System stop, then the release);   *)
+(*  - several Systems hosted one after another by ONE OS thread (driver: "rounds"), or two Systems    *)
+(*    alive at once on one thread, the older one exiting first (driver: "other_system"): NOT modelled.*)
 (*    The model has one System and no thread-local registers (HANDLE / CURRENT of arbiter.rs and     *)
 (*    system.rs); what `Arbiter::current()` returns is observed on the implementation only (echo     *)
 (*    markers: H_Echo / H_EchoSend are applied by the trace spec, the model always reports           *)
@@ -71,8 +80,11 @@ CONSTANTS NArb,      \* worker arbiters 1..NArb (0 is the system arbiter)
           StartIdle, \* TRUE: the System exists but run() has not been entered yet (nothing polls the controller or the
                      \* system arbiter until RunEnter); FALSE: run() was entered before anything else happens
           EveryExitStops, \* design TRUE; FALSE: only the first Exit stops the registered arbiters, later ones are no-ops
-          RxDropAtLoopEnd \* design TRUE; FALSE: the arbiter's receiver is dropped only when its thread exits: between
+          RxDropAtLoopEnd, \* design TRUE; FALSE: the arbiter's receiver is dropped only when its thread exits: between
                      \* the end of the loop and the exit, sends still report true and are discarded
+          DequeueBatch, \* design 0; K > 0: the arbiter loop handles at most K commands per poll, then sleeps for good
+          QueueCap   \* design 0 (unbounded channel); K > 0: an arbiter's command channel holds at most K commands, a
+                     \* push into a full one is refused (spawn / stop report false; the controller ignores the result)
 
 VARIABLES thr,      \* client thread -> [pc, cmd, ok]
           tasks,    \* task id -> [arb, kind, body, code]
@@ -81,7 +93,7 @@ VARIABLES thr,      \* client thread -> [pc, cmd, ok]
                     \* the poll which sent the code still handles before run can return
           oneshot,  \* NoCode empty, else the code
           runst,    \* "idle" (run() not entered yet) | "running" | "returned"
-          arb,      \* 0..NArb -> [loop, cmdq, localq, busy, stopping]
+          arb,      \* 0..NArb -> [loop, cmdq, localq, busy, stopping, regPending, batch, stuck]
           ntask,    \* arb -> number of tasks sent to it (task id = 10 * arb + n: canonical per arbiter)
           ncmd, nsys,
           act       \* label of the last step
@@ -98,7 +110,8 @@ ArbTid(a) == IF a = 0 THEN SysTid ELSE 60 + a
 TheSysId == 1
 NoCode == -999999
 CodesWithNeg == {0, -7}   \* for `Codes <- CodesWithNeg` (a TLC config file cannot spell a negative number)
-ASSUME NoCode \notin Codes /\ CtrlBatch \in Nat
+ASSUME NoCode \notin Codes /\ CtrlBatch \in Nat /\ DequeueBatch \in Nat /\ QueueCap \in Nat
+ASSUME QueueCap > 0 => ~SelfSend    \* (self-sends push without looking at the capacity)
 
 NextId(a) == 10 * a + ntask[a] + 1
 NoCmd == [op |-> "none", arb |-> 0, id |-> 0, kind |-> "", body |-> "", code |-> 0]
@@ -112,7 +125,7 @@ Init ==
              owed |-> 0]
   /\ oneshot = NoCode /\ runst = IF StartIdle THEN "idle" ELSE "running"
   /\ arb = [a \in Arbs |-> [loop |-> IF a <= PreCreated THEN "run" ELSE "none", cmdq |-> <<>>, localq |-> <<>>,
-                            busy |-> FALSE, stopping |-> FALSE, regPending |-> FALSE]]
+                            busy |-> FALSE, stopping |-> FALSE, regPending |-> FALSE, batch |-> 0, stuck |-> FALSE]]
   /\ ntask = [a \in Arbs |-> 0] /\ ncmd = 0 /\ nsys = 0
   /\ h = H_BlockOn([HInit EXCEPT !.clients = Thr \cup {SysTid}, !.sysTid = SysTid, !.sysId = TheSysId,
                                  !.created = 1..PreCreated, !.runEntered = ~StartIdle],
@@ -121,6 +134,9 @@ Init ==
 
 \* the receiver of the command channel exists (a send is accepted)
 RxAlive(a) == arb[a].loop = "run" \/ (~RxDropAtLoopEnd /\ a # 0 /\ arb[a].loop = "ended")
+\* the push is accepted: the receiver exists and (wrong design QueueCap > 0 only) the channel is not full
+Room(a) == QueueCap = 0 \/ Len(arb[a].cmdq) < QueueCap
+Accepts(a) == RxAlive(a) /\ Room(a)
 SysThreadFree == runst = "running" /\ ~arb[0].busy
 CanStep(a) == arb[a].loop = "run" /\ ~arb[a].busy /\ ~arb[a].regPending /\ (a = 0 => runst = "running")
 
@@ -178,13 +194,13 @@ Enq(t) ==
               THEN /\ h' = H_TaskStart(h, c.id, c.arb, t, "ok", TheSysId)       \* wrong design: run inline
                    /\ thr' = [thr EXCEPT ![t].pc = "ret", ![t].ok = TRUE]
                    /\ UNCHANGED <<arb, sysq>>
-              ELSE /\ arb' = IF RxAlive(c.arb) THEN [arb EXCEPT ![c.arb].cmdq = Append(@, [k |-> "exec", id |-> c.id])]
+              ELSE /\ arb' = IF Accepts(c.arb) THEN [arb EXCEPT ![c.arb].cmdq = Append(@, [k |-> "exec", id |-> c.id])]
                                                ELSE arb
-                   /\ thr' = [thr EXCEPT ![t].pc = "ret", ![t].ok = (RxAlive(c.arb) \/ ~SendFailsWhenGone)]
+                   /\ thr' = [thr EXCEPT ![t].pc = "ret", ![t].ok = (Accepts(c.arb) \/ ~SendFailsWhenGone)]
                    /\ UNCHANGED <<h, sysq>>
        [] c.op = "stop" ->
-            /\ arb' = IF RxAlive(c.arb) THEN [arb EXCEPT ![c.arb].cmdq = Append(@, [k |-> "stop", id |-> 0])] ELSE arb
-            /\ thr' = [thr EXCEPT ![t].pc = "ret", ![t].ok = RxAlive(c.arb)]
+            /\ arb' = IF Accepts(c.arb) THEN [arb EXCEPT ![c.arb].cmdq = Append(@, [k |-> "stop", id |-> 0])] ELSE arb
+            /\ thr' = [thr EXCEPT ![t].pc = "ret", ![t].ok = Accepts(c.arb)]
             /\ UNCHANGED <<h, sysq>>
        [] c.op = "sysstop" ->
             /\ sysq' = IF ctrl.alive THEN Append(sysq, [k |-> "exit", v |-> c.code]) ELSE sysq
@@ -208,7 +224,7 @@ CallAtomic(t) ==
   /\ AtomicCalls /\ ncmd < MaxCmds /\ ncmd' = ncmd + 1
   /\ \/ \E a \in Arbs, kind \in Kinds : \E b \in Bodies(kind, a) :
           LET inline == ~RunOnArbiterThread /\ kind = "spawn_fn"
-              ok == inline \/ RxAlive(a) \/ ~SendFailsWhenGone
+              ok == inline \/ Accepts(a) \/ ~SendFailsWhenGone
               id == NextId(a)
               h1 == H_SendStart(h, id, a, t, kind)
               h2 == IF inline THEN H_TaskStart(h1, id, a, t, "ok", TheSysId) ELSE h1 IN
@@ -216,13 +232,13 @@ CallAtomic(t) ==
           /\ tasks' = Put(tasks, id, [arb |-> a, kind |-> kind, body |-> b.body, code |-> b.code])
           /\ ntask' = [ntask EXCEPT ![a] = @ + 1]
           /\ nsys' = IF b.body = "sys" THEN nsys + 1 ELSE nsys
-          /\ arb' = IF RxAlive(a) /\ ~inline THEN [arb EXCEPT ![a].cmdq = Append(@, [k |-> "exec", id |-> id])] ELSE arb
+          /\ arb' = IF Accepts(a) /\ ~inline THEN [arb EXCEPT ![a].cmdq = Append(@, [k |-> "exec", id |-> id])] ELSE arb
           /\ h' = H_SendEnd(h2, id, ok)
           /\ act' = A("Send", t, id)
           /\ UNCHANGED sysq
      \/ \E a \in Workers :
           /\ arb[a].loop # "none"
-          /\ arb' = IF RxAlive(a) THEN [arb EXCEPT ![a].cmdq = Append(@, [k |-> "stop", id |-> 0])] ELSE arb
+          /\ arb' = IF Accepts(a) THEN [arb EXCEPT ![a].cmdq = Append(@, [k |-> "stop", id |-> 0])] ELSE arb
           /\ h' = H_StopEnd(H_StopStart(h, a), a)
           /\ act' = A("StopCall", t, a)
           /\ UNCHANGED <<tasks, ntask, nsys, sysq>>
@@ -255,12 +271,21 @@ ArbLateRegister(a) ==
 
 EndLoop(a) == [arb EXCEPT ![a].loop = IF a = 0 THEN "exited" ELSE "ended", ![a].cmdq = <<>>, ![a].localq = <<>>]
 
+\* Wrong design DequeueBatch = K > 0 only (cf. Polled for the controller): `batch` counts the commands taken in the
+\* current poll of the loop; a poll ends (batch 0, waker registered) when the channel is found empty; after the K-th
+\* command of one poll the loop returns Pending without a registered waker and is never polled again (`stuck`): tasks
+\* that were spawned already still run, the channel is never looked at again.
+Budget(r, rest) ==
+  IF DequeueBatch = 0 THEN r
+  ELSE IF r.batch + 1 >= DequeueBatch THEN [r EXCEPT !.batch = 0, !.stuck = TRUE]
+  ELSE [r EXCEPT !.batch = IF rest = <<>> THEN 0 ELSE @ + 1]
 ArbDequeue(a) ==
-  /\ CanStep(a) /\ arb[a].cmdq # <<>>
+  /\ CanStep(a) /\ arb[a].cmdq # <<>> /\ ~arb[a].stuck
   /\ LET m == Head(arb[a].cmdq) IN
        IF m.k = "exec"
-         THEN arb' = [arb EXCEPT ![a].cmdq = Tail(@),
-                                 ![a].localq = IF ExecuteOnce THEN Append(@, m.id) ELSE Append(Append(@, m.id), m.id)]
+         THEN arb' = [arb EXCEPT ![a] = Budget([arb[a] EXCEPT !.cmdq = Tail(@),
+                                 !.localq = IF ExecuteOnce THEN Append(@, m.id) ELSE Append(Append(@, m.id), m.id)],
+                                               Tail(arb[a].cmdq))]
          ELSE IF StopEndsLoop THEN arb' = EndLoop(a)
               ELSE arb' = [arb EXCEPT ![a].cmdq = Tail(@), ![a].stopping = TRUE]   \* wrong design: keeps draining
   \* the end of a worker's loop is observed at the earliest moment (the strongest case): in the implementation by the
@@ -333,15 +358,27 @@ StopOnTheWay(a) == \/ \E i \in 1..Len(arb[a].cmdq) : arb[a].cmdq[i].k = "stop"
                    \/ arb[a].stopping
 JoinTimeout(a) ==
   /\ a # 0 /\ ~Has(h.joined, a) /\ a \notin h.earlyTimeout
-  /\ arb[a].loop = "run" /\ runst = "returned" /\ ~StopOnTheWay(a)
+  /\ arb[a].loop = "run" /\ runst = "returned" /\ (~StopOnTheWay(a) \/ arb[a].stuck)
   /\ h' = H_Join(h, a, FALSE)
   /\ act' = A("JoinTimeout", a, 0)
+  /\ UNCHANGED <<thr, tasks, sysq, ctrl, oneshot, runst, arb, ntask, ncmd, nsys>>
+
+\* The driver waits, for one watchdog period, until the commands arbiter `a` has accepted have started.  The wait can
+\* never end without further client calls: the loop is alive, nothing its thread can still do by itself starts one of
+\* the commands in the channel (never the case in the design: a non-empty channel is dequeued sooner or later).
+ArbCanMove(a) == \/ CanStep(a) /\ ((arb[a].cmdq # <<>> /\ ~arb[a].stuck) \/ arb[a].localq # <<>>)
+                 \/ arb[a].busy \/ arb[a].regPending \/ (a = 0 /\ runst = "idle")
+AwaitTimeout(a) ==
+  /\ arb[a].loop = "run" /\ ~ArbCanMove(a) /\ a \notin h.awaited
+  /\ \E i \in 1..Len(arb[a].cmdq) : arb[a].cmdq[i].k = "exec"
+  /\ h' = H_AwaitEnd(H_AwaitStart(h, a), a, FALSE)
+  /\ act' = A("AwaitTimeout", a, 0)
   /\ UNCHANGED <<thr, tasks, sysq, ctrl, oneshot, runst, arb, ntask, ncmd, nsys>>
 
 (* ---------------------------- system thread ---------------------------- *)
 MaxOf(S) == CHOOSE x \in S : \A y \in S : y <= x
 Less1(n) == IF n > 0 THEN n - 1 ELSE 0
-StopAll(targets) == [b \in Arbs |-> IF b \in targets /\ RxAlive(b)
+StopAll(targets) == [b \in Arbs |-> IF b \in targets /\ Accepts(b)
                                       THEN [arb[b] EXCEPT !.cmdq = Append(@, [k |-> "stop", id |-> 0])] ELSE arb[b]]
 Targets == IF ExitStopsAll \/ ctrl.registry \ {0} = {} THEN ctrl.registry
            ELSE ctrl.registry \ {MaxOf(ctrl.registry)}
@@ -410,6 +447,7 @@ Next == \/ Internal
         \/ \E t \in Thr : Issue(t) \/ CallAtomic(t)
         \/ NewArbiter
         \/ \E a \in Workers : JoinReturn(a) \/ JoinTimeout(a)
+        \/ \E a \in Arbs : AwaitTimeout(a)
 
 Spec == Init /\ [][Next]_vars
 
